@@ -1,5 +1,609 @@
 /-
-C11 — property theorems (stub; nothing proved yet).
+C11 — results are equivariant under reordering of elements and of phases.
 -/
+import KawinV.Model.Permute
+import KawinV.Model.DtRules
+import Mathlib.Data.List.Sort
+import Mathlib.Data.List.Perm.Basic
+import Mathlib.Data.List.Range
+import Mathlib.Data.List.Nodup
+import Mathlib.Order.Basic
+import Mathlib.Tactic.Ring
+import Mathlib.Tactic.Linarith
+import Mathlib.Tactic.NormNum
+import Mathlib.Algebra.Order.Field.Basic
+import Mathlib.Algebra.BigOperators.Group.List.Basic
+import Mathlib.Algebra.Order.Ring.Rat
+
+set_option linter.unusedSectionVars false
+set_option linter.unusedVariables false
+set_option linter.unusedSimpArgs false
+
 namespace KawinV.Props.C11
+open KawinV.Permute
+open scoped List
+
+/-! ## fancy indexing -/
+section take
+variable {α β : Type} [Inhabited α] [Inhabited β]
+
+theorem take_length (idx : List Nat) (a : List α) : (take idx a).length = idx.length := by
+  simp [take]
+
+theorem take_getElem (idx : List Nat) (a : List α) (i : Nat) (hi : i < (take idx a).length) :
+    (take idx a)[i] = a.getD (idx[i]'(by simpa [take] using hi)) default := by
+  simp [take]
+
+/-- `a[range n] = a` -/
+theorem take_range (a : List α) : take (List.range a.length) a = a := by
+  apply List.ext_getElem
+  · simp [take]
+  · intro i h1 h2
+    simp [take, h2]
+
+/-- `a[s][u] = a[s[u]]` when the entries of `u` index into `s` -/
+theorem take_take (u s : List Nat) (a : List α) (hu : ∀ i ∈ u, i < s.length) :
+    take u (take s a) = take (take u s) a := by
+  unfold take
+  rw [List.map_map]
+  apply List.map_congr_left
+  intro i hi
+  have := hu i hi
+  simp [this]
+
+/-- `f(a)[idx] = f(a[idx])` elementwise, for in-range indices -/
+theorem take_map (idx : List Nat) (a : List α) (f : α → β) (h : ∀ i ∈ idx, i < a.length) :
+    take idx (a.map f) = (take idx a).map f := by
+  unfold take
+  rw [List.map_map]
+  apply List.map_congr_left
+  intro i hi
+  have := h i hi
+  simp [this]
+
+/-- indexing with a permutation of `range n` permutes -/
+theorem take_perm (p : List Nat) (a : List α) (hp : p ~ List.range a.length) : take p a ~ a := by
+  have h := hp.map (fun i => a.getD i default)
+  have h2 : (List.range a.length).map (fun i => a.getD i default) = a := take_range a
+  rw [h2] at h
+  exact h
+
+theorem mem_lt_of_perm_range {p : List Nat} {n : Nat} (hp : p ~ List.range n) : ∀ i ∈ p, i < n := by
+  intro i hi
+  exact List.mem_range.mp (hp.mem_iff.mp hi)
+
+/-- two in-range index lists that pick the same entries from a duplicate-free list are equal -/
+theorem take_inj (ks : List α) (hnd : ks.Nodup) (w s : List Nat)
+    (hw : ∀ i ∈ w, i < ks.length) (hs : ∀ i ∈ s, i < ks.length)
+    (h : take w ks = take s ks) : w = s := by
+  have hlen : w.length = s.length := by
+    have := congrArg List.length h
+    simpa [take] using this
+  apply List.ext_getElem hlen
+  intro i h1 h2
+  have e1 := take_getElem w ks i (by simpa [take] using h1)
+  have e2 := take_getElem s ks i (by simpa [take] using h2)
+  have hw' := hw _ (List.getElem_mem h1)
+  have hs' := hs _ (List.getElem_mem h2)
+  have : (take w ks)[i]'(by simpa [take] using h1) = (take s ks)[i]'(by simpa [take] using h2) := by
+    simp only [h]
+  rw [e1, e2] at this
+  simp only [List.getD_eq_getElem?_getD, List.getElem?_eq_getElem hw', List.getElem?_eq_getElem hs',
+    Option.getD_some] at this
+  exact (hnd.getElem_inj_iff).mp this
+
+end take
+
+/-! ## argsort -/
+section argsort
+variable {κ : Type} [LinearOrder κ]
+
+theorem keyLe_iff (a b : κ × Nat) : keyLe a b = true ↔ a.1 ≤ b.1 := by
+  simp [keyLe]
+
+theorem sortedPairs_perm (ks : List κ) : sortedPairs ks ~ ks.zipIdx :=
+  List.mergeSort_perm _ _
+
+theorem sortedPairs_pairwise (ks : List κ) : (sortedPairs ks).Pairwise (fun a b => a.1 ≤ b.1) := by
+  have h := List.pairwise_mergeSort (le := (keyLe : κ × Nat → κ × Nat → Bool))
+    (by intro a b c; simp only [keyLe_iff]; exact le_trans)
+    (by intro a b; simp only [Bool.or_eq_true, keyLe_iff]; exact le_total _ _) ks.zipIdx
+  unfold sortedPairs
+  exact h.imp (fun {a b} hab => (keyLe_iff a b).mp hab)
+
+/-- every (key, position) pair of the sorted list is a pair of the input: `ks[position] = key` -/
+theorem sortedPairs_mem (ks : List κ) (p : κ × Nat) (hp : p ∈ sortedPairs ks) : ks[p.2]? = some p.1 := by
+  have := (sortedPairs_perm ks).mem_iff.mp hp
+  rcases p with ⟨k, i⟩
+  simpa [List.mem_zipIdx_iff_getElem?] using this
+
+theorem argsort_length (ks : List κ) : (argsort ks).length = ks.length := by
+  simp [argsort, sortedPairs]
+
+/-- `argsort` returns a permutation of `0..n-1` -/
+theorem argsort_perm_range (ks : List κ) : argsort ks ~ List.range ks.length := by
+  have h := (sortedPairs_perm ks).map Prod.snd
+  have h2 : ks.zipIdx.map Prod.snd = List.range ks.length := by
+    apply List.ext_getElem <;> simp
+  rw [h2] at h
+  exact h
+
+theorem sortedKeys_perm (ks : List κ) : sortedKeys ks ~ ks := by
+  have h := (sortedPairs_perm ks).map Prod.fst
+  have h2 : ks.zipIdx.map Prod.fst = ks := by
+    apply List.ext_getElem <;> simp
+  rw [h2] at h
+  exact h
+
+theorem sortedKeys_sorted (ks : List κ) : (sortedKeys ks).Pairwise (· ≤ ·) := by
+  unfold sortedKeys
+  rw [List.pairwise_map]
+  exact sortedPairs_pairwise ks
+
+/-- the sorted list depends on the multiset of keys only -/
+theorem sortedKeys_congr {ks ks' : List κ} (h : ks' ~ ks) : sortedKeys ks' = sortedKeys ks :=
+  List.Perm.eq_of_pairwise (le := (· ≤ ·)) (fun a b _ _ h1 h2 => le_antisymm h1 h2)
+    (sortedKeys_sorted ks') (sortedKeys_sorted ks)
+    ((sortedKeys_perm ks').trans (h.trans (sortedKeys_perm ks).symm))
+
+variable {α : Type} [Inhabited α]
+
+/-- `a[argsort ks]` lists the entries of `a` in ascending order of their keys -/
+theorem take_argsort (ks : List κ) (a : List α) :
+    take (argsort ks) a = (sortedPairs ks).map (fun p => a.getD p.2 default) := by
+  simp [take, argsort, List.map_map, Function.comp_def]
+
+/-- `ks[argsort ks] = sorted ks` -/
+theorem take_argsort_self [Inhabited κ] (ks : List κ) : take (argsort ks) ks = sortedKeys ks := by
+  rw [take_argsort]
+  unfold sortedKeys
+  apply List.map_congr_left
+  intro p hp
+  simp [sortedPairs_mem ks p hp]
+
+end argsort
+
+/-! ## inverse permutation -/
+section inverse
+variable {κ : Type} [LinearOrder κ] {α : Type} [Inhabited α]
+
+/-- a sorted permutation of `0..n-1` is `0..n-1` -/
+theorem sortedKeys_of_perm_range (s : List Nat) (n : Nat) (hs : s ~ List.range n) :
+    sortedKeys s = List.range n :=
+  List.Perm.eq_of_pairwise (le := (· ≤ ·)) (fun a b _ _ h1 h2 => le_antisymm h1 h2)
+    (sortedKeys_sorted s) (by
+      rw [List.pairwise_iff_getElem]
+      intro i j hi hj hij
+      simp only [List.getElem_range]
+      exact hij.le)
+    ((sortedKeys_perm s).trans hs)
+
+/-- `s[argsort s] = range n` for a permutation `s` of `0..n-1`: `argsort s` is the inverse permutation -/
+theorem take_argsort_perm (s : List Nat) (hs : s ~ List.range s.length) :
+    take (argsort s) s = List.range s.length := by
+  rw [take_argsort_self, sortedKeys_of_perm_range s _ hs]
+
+/-- **inverse permutation** (vectors): `a[sortIndices][unsortIndices] = a`, for ANY key list (distinct
+or not) and any `a` of the same length. -/
+theorem unsort_take_sort (ks : List κ) (a : List α) (ha : a.length = ks.length) :
+    take (argsort (argsort ks)) (take (argsort ks) a) = a := by
+  have hs := argsort_perm_range ks
+  have hlen := argsort_length ks
+  have hu : argsort (argsort ks) ~ List.range (argsort ks).length := argsort_perm_range _
+  rw [take_take _ _ _ (mem_lt_of_perm_range hu)]
+  rw [take_argsort_perm _ (by rw [hlen]; exact hs), hlen, ← ha]
+  exact take_range a
+
+/-- the same in the model's names -/
+theorem unsortIdx_sortIdx (ks : List κ) (a : List α) (ha : a.length = ks.length) :
+    take (unsortIdx ks) (take (sortIdx ks) a) = a :=
+  unsort_take_sort ks a ha
+
+/-- **inverse permutation** (matrices): rows∘columns.  `M[s,:][:,s]` then `[u,:][:,u]` gives `M` back
+for an n×n matrix. -/
+theorem unsort_rows_cols (ks : List κ) (m : List (List α)) (hm : m.length = ks.length)
+    (hrow : ∀ r ∈ m, r.length = ks.length) :
+    permMat (argsort (argsort ks)) (permMat (argsort ks) m) = m := by
+  have hs := argsort_perm_range ks
+  have hlen := argsort_length ks
+  have hu : argsort (argsort ks) ~ List.range (argsort ks).length := argsort_perm_range _
+  have hu' : ∀ i ∈ argsort (argsort ks), i < (argsort ks).length := mem_lt_of_perm_range hu
+  unfold permMat takeCols takeRows
+  rw [take_map _ _ _ (by simpa [take_length] using hu')]
+  rw [unsort_take_sort ks m hm, List.map_map]
+  conv_rhs => rw [← List.map_id m]
+  apply List.map_congr_left
+  intro r hr
+  exact unsort_take_sort ks r (hrow r hr)
+
+/-- the other direction: `a[unsortIndices][sortIndices] = a` -/
+theorem sort_take_unsort (ks : List κ) (a : List α) (ha : a.length = ks.length) :
+    take (argsort ks) (take (argsort (argsort ks)) a) = a := by
+  have hs := argsort_perm_range ks
+  have hlen := argsort_length ks
+  have hu : argsort (argsort ks) ~ List.range (argsort ks).length := argsort_perm_range _
+  have hulen : (argsort (argsort ks)).length = ks.length := by rw [argsort_length, hlen]
+  have hs' : ∀ i ∈ argsort ks, i < (argsort (argsort ks)).length := by
+    rw [hulen]; exact mem_lt_of_perm_range hs
+  rw [take_take _ _ _ hs']
+  -- w = u[s] satisfies s[w] = s, hence w = range n
+  have hw : take (argsort ks) (argsort (argsort ks)) = List.range ks.length := by
+    apply take_inj (argsort ks) (hs.nodup_iff.mpr List.nodup_range)
+    · intro i hi
+      simp only [take, List.mem_map] at hi
+      obtain ⟨j, hj, rfl⟩ := hi
+      have hj' : j < (argsort (argsort ks)).length := hs' j hj
+      rw [List.getD_eq_getElem?_getD, List.getElem?_eq_getElem hj', Option.getD_some]
+      exact mem_lt_of_perm_range hu _ (List.getElem_mem hj')
+    · intro i hi; rw [hlen]; exact List.mem_range.mp hi
+    · rw [← take_take _ _ _ hs']
+      rw [take_argsort_perm _ (by rw [hlen]; exact hs), hlen]
+      have h1 : take (argsort ks) (List.range ks.length) = argsort ks := by
+        apply List.ext_getElem
+        · simp [take]
+        · intro i h1 h2
+          have : (argsort ks)[i] < ks.length := mem_lt_of_perm_range hs _ (List.getElem_mem h2)
+          simp [take, this]
+      rw [h1, ← hlen]
+      exact (take_range _).symm
+  rw [hw, ← ha]
+  exact take_range a
+
+end inverse
+
+/-! ## element equivariance -/
+section equivariance
+variable {κ : Type} [LinearOrder κ] [Inhabited κ] {α β : Type} [Inhabited α] [Inhabited β]
+
+/-- `unsortIndices[i]` is the alphabetical RANK of the name at user position `i` (distinct names) -/
+theorem unsort_eq_rank (ks : List κ) (hnd : ks.Nodup) :
+    unsortIdx ks = ks.map (fun k => (sortedKeys ks).idxOf k) := by
+  have hu : argsort (argsort ks) ~ List.range (argsort ks).length := argsort_perm_range _
+  have hlen := argsort_length ks
+  have hulen : (argsort (argsort ks)).length = ks.length := by rw [argsort_length, hlen]
+  have hskl : (sortedKeys ks).length = ks.length := (sortedKeys_perm ks).length_eq
+  have hsnd : (sortedKeys ks).Nodup := (sortedKeys_perm ks).nodup_iff.mpr hnd
+  -- sorted[u] = ks
+  have key : take (argsort (argsort ks)) (sortedKeys ks) = ks := by
+    rw [← take_argsort_self]; exact unsort_take_sort ks ks rfl
+  unfold unsortIdx
+  apply List.ext_getElem
+  · simp [hulen]
+  · intro i h1 h2
+    have hi : i < ks.length := by simpa using h2
+    have hui : (argsort (argsort ks))[i] < (sortedKeys ks).length := by
+      rw [hskl, ← hlen]; exact mem_lt_of_perm_range hu _ (List.getElem_mem h1)
+    have e := take_getElem (argsort (argsort ks)) (sortedKeys ks) i (by simpa [take_length] using h1)
+    simp only [key] at e
+    rw [List.getD_eq_getElem?_getD, List.getElem?_eq_getElem hui, Option.getD_some] at e
+    simp only [List.getElem_map]
+    rw [e]
+    exact (hsnd.idxOf_getElem _ hui).symm
+
+/-- re-listing the names with a permutation `p` of the positions -/
+theorem take_names_perm (ks : List κ) (p : List Nat) (hp : p ~ List.range ks.length) : take p ks ~ ks :=
+  take_perm p ks hp
+
+/-- **ranks move with the names**: `unsortIndices` of the re-listed names is the re-listed `unsortIndices` -/
+theorem unsort_take (ks : List κ) (hnd : ks.Nodup) (p : List Nat) (hp : p ~ List.range ks.length) :
+    unsortIdx (take p ks) = take p (unsortIdx ks) := by
+  have hperm := take_names_perm ks p hp
+  have hnd' : (take p ks).Nodup := hperm.nodup_iff.mpr hnd
+  rw [unsort_eq_rank _ hnd', unsort_eq_rank _ hnd, sortedKeys_congr hperm]
+  exact (take_map p ks _ (mem_lt_of_perm_range hp)).symm
+
+/-- **the backend sees the same data**: values aligned with the sorted names do not depend on the
+order in which names and values were listed -/
+theorem sorted_data_invariant (ks : List κ) (hnd : ks.Nodup) (p : List Nat) (hp : p ~ List.range ks.length)
+    (x : List α) :
+    take (sortIdx (take p ks)) (take p x) = take (sortIdx ks) x := by
+  unfold sortIdx
+  have hperm := take_names_perm ks p hp
+  have hplen : p.length = ks.length := by simpa using hp.length_eq
+  have hs' : argsort (take p ks) ~ List.range p.length := by
+    have := argsort_perm_range (take p ks); rwa [take_length] at this
+  have hin : ∀ i ∈ argsort (take p ks), i < p.length := mem_lt_of_perm_range hs'
+  rw [take_take _ _ _ hin]
+  congr 1
+  -- both index lists pick the sorted names out of ks
+  apply take_inj ks hnd
+  · intro i hi
+    simp only [take, List.mem_map] at hi
+    obtain ⟨j, hj, rfl⟩ := hi
+    have hj' := hin j hj
+    rw [List.getD_eq_getElem?_getD, List.getElem?_eq_getElem hj', Option.getD_some]
+    exact mem_lt_of_perm_range hp _ (List.getElem_mem hj')
+  · exact mem_lt_of_perm_range (argsort_perm_range ks)
+  · rw [← take_take _ _ _ hin, take_argsort_self, take_argsort_self, sortedKeys_congr hperm]
+
+theorem sorted_names_invariant (ks : List κ) (p : List Nat) (hp : p ~ List.range ks.length) :
+    take (sortIdx (take p ks)) (take p ks) = take (sortIdx ks) ks := by
+  unfold sortIdx
+  rw [take_argsort_self, take_argsort_self, sortedKeys_congr (take_names_perm ks p hp)]
+
+/-- **element equivariance, vector results**: for every permutation `p` of the listed names and an
+ARBITRARY backend, listing names and inputs in the order `p` returns the result in the order `p`:
+`wrapper (names∘p) (x∘p) = (wrapper names x)∘p`. -/
+theorem wrapVec_equivariant (backend : List κ → List α → List β) (names : List κ) (hnd : names.Nodup)
+    (p : List Nat) (hp : p ~ List.range names.length) (x : List α) :
+    wrapVec backend (take p names) (take p x) = take p (wrapVec backend names x) := by
+  unfold wrapVec
+  rw [sorted_names_invariant names p hp, sorted_data_invariant names hnd p hp x, unsort_take names hnd p hp]
+  have hulen : (unsortIdx names).length = names.length := by
+    unfold unsortIdx; rw [argsort_length, argsort_length]
+  rw [← take_take _ _ _ (by rw [hulen]; exact mem_lt_of_perm_range hp)]
+
+/-- `M[q,:][:,q]` with `q = u[p]` is `(M[u,:][:,u])[p,:][:,p]` -/
+theorem permMat_take (p u : List Nat) (m : List (List β)) (hp : ∀ i ∈ p, i < u.length) :
+    permMat (take p u) m = permMat p (permMat u m) := by
+  unfold permMat takeCols takeRows
+  rw [← take_take _ _ _ hp, take_map p (take u m) _ (by simpa [take_length] using hp), List.map_map]
+  apply List.map_congr_left
+  intro r _
+  simp only [Function.comp]
+  exact (take_take _ _ _ hp).symm
+
+/-- **element equivariance, matrix results** (`Dnkj`, `Gba`): the result for the re-listed names is
+`P·D·Pᵀ`, rows and columns re-listed the same way, for an ARBITRARY backend. -/
+theorem wrapMat_equivariant (backend : List κ → List α → List (List β)) (names : List κ)
+    (hnd : names.Nodup) (p : List Nat) (hp : p ~ List.range names.length) (x : List α) :
+    wrapMat backend (take p names) (take p x) = permMat p (wrapMat backend names x) := by
+  unfold wrapMat
+  rw [sorted_names_invariant names p hp, sorted_data_invariant names hnd p hp x, unsort_take names hnd p hp]
+  have hulen : (unsortIdx names).length = names.length := by
+    unfold unsortIdx; rw [argsort_length, argsort_length]
+  exact permMat_take p _ _ (by rw [hulen]; exact mem_lt_of_perm_range hp)
+
+/-- positions of `ref :: solutes` when the solutes are re-listed with `p` -/
+def liftPerm (p : List Nat) : List Nat := 0 :: p.map (· + 1)
+
+theorem liftPerm_perm (p : List Nat) (n : Nat) (hp : p ~ List.range n) :
+    liftPerm p ~ List.range (n + 1) := by
+  unfold liftPerm
+  rw [List.range_succ_eq_map]
+  exact List.Perm.cons 0 (hp.map _)
+
+theorem take_liftPerm (p : List Nat) (a : α) (as : List α) :
+    take (liftPerm p) (a :: as) = a :: take p as := by
+  simp [take, liftPerm, List.map_map, Function.comp_def]
+
+theorem tail_take_liftPerm (p : List Nat) (u : List Nat) (hu : u ≠ []) :
+    (take (liftPerm p) u).tail = take p u.tail := by
+  cases u with
+  | nil => exact absurd rfl hu
+  | cons a as => rw [take_liftPerm]; rfl
+
+/-- **element equivariance with a reference element** (driving-force precipitate composition
+`xb[unsortIndices[1:]]`): re-listing the SOLUTES re-lists the result the same way; the reference element
+stays in front and the backend (which answers for all components alphabetically) is arbitrary. -/
+theorem wrapVecRef_equivariant (backend : List κ → List κ → List α → List β) (ref : κ) (solutes : List κ)
+    (hnd : (ref :: solutes).Nodup) (p : List Nat) (hp : p ~ List.range solutes.length) (x : List α) :
+    wrapVecRef backend ref (take p solutes) (take p x) = take p (wrapVecRef backend ref solutes x) := by
+  unfold wrapVecRef
+  have hnds : solutes.Nodup := (List.nodup_cons.mp hnd).2
+  have hlp : liftPerm p ~ List.range (ref :: solutes).length := liftPerm_perm p _ hp
+  have hcons : ref :: take p solutes = take (liftPerm p) (ref :: solutes) := (take_liftPerm p ref solutes).symm
+  rw [sorted_names_invariant solutes p hp, sorted_data_invariant solutes hnds p hp x, hcons,
+    sortedKeys_congr (take_names_perm _ _ hlp), unsort_take _ hnd _ hlp]
+  have hulen : (unsortIdx (ref :: solutes)).length = solutes.length + 1 := by
+    unfold unsortIdx; rw [argsort_length, argsort_length]; rfl
+  have hne : unsortIdx (ref :: solutes) ≠ [] := by
+    intro h; rw [h] at hulen; simp at hulen
+  rw [tail_take_liftPerm p _ hne]
+  rw [← take_take _ _ _ (by
+    intro i hi
+    have := mem_lt_of_perm_range hp i hi
+    rw [List.length_tail, hulen]; omega)]
+
+/-- the same with the reference entry kept (tracer diffusivities, mobilities, interfacial compositions over
+`elements[:-1]`): entry 0 (reference element) is unchanged, the solute entries are re-listed. -/
+theorem wrapVecFull_equivariant (backend : List κ → List κ → List α → List β) (ref : κ) (solutes : List κ)
+    (hnd : (ref :: solutes).Nodup) (p : List Nat) (hp : p ~ List.range solutes.length) (x : List α) :
+    wrapVecFull backend ref (take p solutes) (take p x)
+      = take (liftPerm p) (wrapVecFull backend ref solutes x) := by
+  unfold wrapVecFull
+  have hnds : solutes.Nodup := (List.nodup_cons.mp hnd).2
+  have hlp : liftPerm p ~ List.range (ref :: solutes).length := liftPerm_perm p _ hp
+  have hcons : ref :: take p solutes = take (liftPerm p) (ref :: solutes) := (take_liftPerm p ref solutes).symm
+  rw [sorted_names_invariant solutes p hp, sorted_data_invariant solutes hnds p hp x, hcons,
+    sortedKeys_congr (take_names_perm _ _ hlp), unsort_take _ hnd _ hlp]
+  have hulen : (unsortIdx (ref :: solutes)).length = (ref :: solutes).length := by
+    unfold unsortIdx; rw [argsort_length, argsort_length]
+  rw [← take_take _ _ _ (by rw [hulen]; exact mem_lt_of_perm_range hlp)]
+
+/-- rows filled by name (composition profiles, boundary conditions) follow the listed order -/
+theorem byName_equivariant {γ : Type} [Inhabited γ] (table : κ → γ) (names : List κ) (p : List Nat)
+    (hp : p ~ List.range names.length) :
+    byName table (take p names) = take p (byName table names) := by
+  unfold byName
+  exact (take_map p names table (mem_lt_of_perm_range hp)).symm
+
+end equivariance
+
+/-! ## per-phase step-size rules -/
+section steps
+open KawinV.DtRules
+variable {α : Type} [Field α] [LinearOrder α] [IsStrictOrderedRing α]
+
+theorem foldl_minS_spec (xs : List α) (a : α) :
+    (xs.foldl minS a = a ∨ xs.foldl minS a ∈ xs) ∧ xs.foldl minS a ≤ a ∧ ∀ x ∈ xs, xs.foldl minS a ≤ x := by
+  induction xs generalizing a with
+  | nil => simp
+  | cons y ys ih =>
+    simp only [List.foldl_cons, List.mem_cons]
+    obtain ⟨h1, h2, h3⟩ := ih (minS a y)
+    have hle : minS a y ≤ a ∧ minS a y ≤ y ∧ (minS a y = a ∨ minS a y = y) := by
+      unfold minS; split
+      · next h => exact ⟨h.le, le_refl _, Or.inr rfl⟩
+      · next h => exact ⟨le_refl _, not_lt.mp h, Or.inl rfl⟩
+    refine ⟨?_, h2.trans hle.1, ?_⟩
+    · rcases h1 with h1 | h1
+      · rcases hle.2.2 with e | e
+        · left; rw [h1, e]
+        · right; left; rw [h1, e]
+      · right; right; exact h1
+    · intro x hx
+      rcases hx with rfl | hx
+      · exact h2.trans hle.2.1
+      · exact h3 x hx
+
+/-- `np.amin` returns an entry of the list … -/
+theorem minList_mem (l : List α) (h : l ≠ []) : minList l ∈ l := by
+  cases l with
+  | nil => exact absurd rfl h
+  | cons x xs =>
+    show xs.foldl minS x ∈ x :: xs
+    rcases (foldl_minS_spec xs x).1 with e | e
+    · rw [e]; exact List.mem_cons_self
+    · exact List.mem_cons_of_mem _ e
+
+/-- … that is below every entry -/
+theorem minList_le (l : List α) (x : α) (hx : x ∈ l) : minList l ≤ x := by
+  cases l with
+  | nil => simp at hx
+  | cons y ys =>
+    show ys.foldl minS y ≤ x
+    obtain ⟨_, h2, h3⟩ := foldl_minS_spec ys y
+    rcases List.mem_cons.mp hx with rfl | h
+    · exact h2
+    · exact h3 x h
+
+/-- **min is symmetric**: `np.amin` does not depend on the order of the entries -/
+theorem minList_perm {l l' : List α} (h : l ~ l') : minList l = minList l' := by
+  by_cases hl : l = []
+  · subst hl; rw [List.nil_perm.mp h]
+  · have hl' : l' ≠ [] := fun e => hl (by subst e; exact List.perm_nil.mp h)
+    apply le_antisymm
+    · exact minList_le l _ (h.mem_iff.mpr (minList_mem l' hl'))
+    · exact minList_le l' _ (h.mem_iff.mp (minList_mem l hl))
+
+theorem sumL_eq_sum (l : List α) : DtRules.sumL l = l.sum := by
+  induction l with
+  | nil => rfl
+  | cons x xs ih => simp [DtRules.sumL, ih]
+
+/-- **sums over phases commute** -/
+theorem sumL_perm {l l' : List α} (h : l ~ l') : DtRules.sumL l = DtRules.sumL l' := by
+  rw [sumL_eq_sum, sumL_eq_sum]; exact h.sum_eq
+
+variable {phases phases' : List (Phase α)}
+
+/-- `computeDTfromPSD` does not depend on the order of the phases -/
+theorem dtPSD_perm (c : Cfg α) (n : Nat) (Tp Tc dtMax : α) (h : phases ~ phases') :
+    dtPSD c n Tp Tc dtMax phases = dtPSD c n Tp Tc dtMax phases' := by
+  unfold dtPSD
+  split
+  · apply minList_perm
+    apply List.Perm.cons
+    split
+    · exact h.map _
+    · exact List.Perm.refl _
+  · rfl
+
+/-- `computeDTfromNucleationRate` does not depend on the order of the phases -/
+theorem dtNuc_perm [Trans α] (c : Cfg α) (n : Nat) (dtPrev dtMax : α) (h : phases ~ phases') :
+    dtNuc c n dtPrev dtMax phases = dtNuc c n dtPrev dtMax phases' := by
+  unfold dtNuc
+  split
+  · exact minList_perm (h.map _)
+  · rfl
+
+theorem all_perm {β : Type} (f : β → Bool) {l l' : List β} (h : l ~ l') : l.all f = l'.all f := by
+  rw [Bool.eq_iff_iff, List.all_eq_true, List.all_eq_true]
+  exact ⟨fun H x hx => H x (h.mem_iff.mpr hx), fun H x hx => H x (h.mem_iff.mp hx)⟩
+
+/-- `computeDTfromRcrit` does not depend on the order of the phases -/
+theorem dtRcrit_perm (c : Cfg α) (n : Nat) (dtPrev dtMax : α) (h : phases ~ phases') :
+    dtRcrit c n dtPrev dtMax phases = dtRcrit c n dtPrev dtMax phases' := by
+  unfold dtRcrit
+  rw [all_perm rcQuiet h]
+  split
+  · split
+    · exact minList_perm (h.map _)
+    · exact minList_perm (h.map _)
+  · rfl
+
+/-- `computeDTfromVolume` (repaired code) does not depend on the order of the phases -/
+theorem dtVolume_perm (c : Cfg α) (vmAlpha dtMax : α) (h : phases ~ phases') :
+    dtVolume c vmAlpha dtMax phases = dtVolume c vmAlpha dtMax phases' := by
+  unfold dtVolume
+  split
+  · exact minList_perm (h.map _)
+  · rfl
+
+/-- the repaired rule respects the estimate of EVERY phase, wherever it is listed -/
+theorem dtVolume_le (c : Cfg α) (vmAlpha dtMax : α) (ph : Phase α) (hph : ph ∈ phases)
+    (hc : c.checkVol = true) (hnz : dVPhase vmAlpha ph ≠ 0) :
+    dtVolume c vmAlpha dtMax phases ≤ c.maxVolChange / (2 * |dVPhase vmAlpha ph|) := by
+  unfold dtVolume
+  rw [if_pos hc]
+  have hmem : dtVolPhase c vmAlpha dtMax ph ∈ phases.map (dtVolPhase c vmAlpha dtMax) :=
+    List.mem_map_of_mem hph
+  have := minList_le _ _ hmem
+  have e : dtVolPhase c vmAlpha dtMax ph = c.maxVolChange / (2 * |dVPhase vmAlpha ph|) := by
+    unfold dtVolPhase
+    have hz : nz (dVPhase vmAlpha ph) := lt_or_gt_of_ne hnz
+    simp only [hz, if_true]
+    congr 2
+    unfold DtRules.absS
+    split
+    · next h => exact (abs_of_neg h).symm
+    · next h => exact (abs_of_nonneg (not_lt.mp h)).symm
+  rwa [e] at this
+
+/-! ### the rule before the repair (D-C11-dtvolume) -/
+
+/-- before the repair only the LAST listed phase entered the limit -/
+theorem dtVolumeOld_last (c : Cfg α) (vmAlpha dtMax : α) (init : List (Phase α)) (last : Phase α)
+    (hc : c.checkVol = true) :
+    dtVolumeOld c vmAlpha dtMax (init ++ [last])
+      = if nz (dVPhase vmAlpha last) then c.maxVolChange / (2 * DtRules.absS (dVPhase vmAlpha last)) else dtMax := by
+  unfold dtVolumeOld
+  rw [if_pos hc]
+  simp only [List.getLast?_append, List.getLast?_singleton, Option.some_or]
+  have hne : (init ++ [last]).map (fun _ => if nz (dVPhase vmAlpha last) then
+      c.maxVolChange / (2 * DtRules.absS (dVPhase vmAlpha last)) else dtMax) ≠ [] := by simp
+  have := minList_mem _ hne
+  simp only [List.mem_map] at this
+  obtain ⟨_, _, e⟩ := this
+  exact e.symm
+
+/-- what did hold before the repair: re-listings that keep the same phase LAST -/
+theorem dtVolumeOld_partial (c : Cfg α) (vmAlpha dtMax : α) (h : phases ~ phases')
+    (hlast : phases.getLast? = phases'.getLast?) :
+    dtVolumeOld c vmAlpha dtMax phases = dtVolumeOld c vmAlpha dtMax phases' := by
+  unfold dtVolumeOld
+  rw [hlast]
+  split
+  · cases phases'.getLast? with
+    | none => rfl
+    | some l => exact minList_perm (h.map _)
+  · rfl
+
+def cfgQ : Cfg ℚ :=
+  { checkPSD := true, checkNuc := true, checkTemp := true, checkRcrit := true, checkVol := true,
+    minNucRate := 0, maxNucChange := 1, maxNonIsoDT := 1, maxRcritChange := 1, maxVolChange := 1,
+    dtScale := 0, binRatio := 1 }
+
+/-- one size class holding `dens` particles of radius 1, both faces growing at rate 1 -/
+def phQ (id : Nat) (dens : ℚ) : Phase ℚ :=
+  { id := id, site := .bulk, psd := [dens], size := [1], bounds := [0, 2], growth := [1, 1], dissIdx := 0,
+    nucPrev := 0, nucCur := 0, rcPrev := 0, rcCur := 0, dG := 0, Rnuc := 0,
+    vmBeta := 1, areaFactor := 1, volumeFactor := 1, gbRemoval := 0, gbk := 0, parents := [], x := [dens] }
+
+/-- **negative witness for the code as it was** (D-C11-dtvolume): two phases whose estimated volume
+changes are 1 and 3; listed (A, B) the old rule returns 1/6, listed (B, A) it returns 1/2. -/
+theorem dtVolumeOld_order_dependent :
+    dtVolumeOld cfgQ 1 10 [phQ 0 1, phQ 1 3] = 1 / 6 ∧ dtVolumeOld cfgQ 1 10 [phQ 1 3, phQ 0 1] = 1 / 2 ∧
+    [phQ 0 1, phQ 1 3] ~ [phQ 1 3, phQ 0 1] := by
+  refine ⟨?_, ?_, List.Perm.swap _ _ _⟩ <;>
+    norm_num [dtVolumeOld, cfgQ, phQ, dVPhase, dVi, DtRules.sumL, minList, minS, DtRules.absS, npow, nz]
+
+/-- the repaired rule on the same two listings: 1/6 both times (the larger estimate limits the step) -/
+example : dtVolume cfgQ 1 10 [phQ 0 1, phQ 1 3] = 1 / 6 ∧ dtVolume cfgQ 1 10 [phQ 1 3, phQ 0 1] = 1 / 6 := by
+  constructor <;>
+    norm_num [dtVolume, dtVolPhase, cfgQ, phQ, dVPhase, dVi, DtRules.sumL, minList, minS, DtRules.absS, npow, nz]
+
+end steps
+
 end KawinV.Props.C11
